@@ -35,9 +35,13 @@ def _shim():
 
 
 # ------------------------------------------------------------------ ambient perturbation
+ALONGSIDE = {'on': False}
+
+
 @contextlib.contextmanager
 def perturbed(spec):
-  """spec: {'np_seed', 'py_seed', 'burn', 'clock_offset', 'unrelated'} (all optional)."""
+  """spec: {'np_seed', 'py_seed', 'burn', 'clock_offset', 'unrelated', 'alongside'} (all optional).
+  alongside: benchmark runs are stepped in lock-step with ANOTHER seeded benchmark run of the same process."""
   import datetime
   import random
   import time
@@ -84,11 +88,13 @@ def perturbed(spec):
         datetime.datetime = ShiftedDateTime
     except Exception:  # pylint: disable=broad-except
       pass
+  ALONGSIDE['on'] = bool(spec.get('alongside'))
   try:
     if spec.get('unrelated'):
       unrelated_study(int(spec.get('unrelated')))
     yield
   finally:
+    ALONGSIDE['on'] = False
     time.time, datetime.datetime = saved_time, saved_dt
     if trial_globals is not None:
       trial_globals[0]['__attr_factory_creation_time'] = trial_globals[1]
@@ -353,8 +359,28 @@ def run_benchmark_case(case):
     subs = [benchmark_runner.GenerateSuggestions(2), benchmark_runner.EvaluateActiveTrials(1),
             benchmark_runner.GenerateAndEvaluate(case.get('batch', 2)), benchmark_runner.FillActiveTrials(3),
             benchmark_runner.EvaluateActiveTrials()]
-    runner = benchmark_runner.BenchmarkRunner(benchmark_subroutines=subs, num_repeats=case['repeats'])
-    runner.run(state)
+    if ALONGSIDE['on']:
+      # another study of the same process progresses at the same time: one repeat of this run, one of the other
+      other_spec = {'params': [{'name': 'u', 'type': 'double', 'lo': 0.0, 'hi': 5.0, 'scale': 'linear'},
+                               {'name': 'k', 'type': 'int', 'lo': 0, 'hi': 9}],
+                    'metrics': [{'name': 'other', 'goal': 'min'}]}
+
+      class Other(exp_lib.Experimenter):
+        def problem_statement(self):
+          return build_problem(other_spec)
+
+        def evaluate(self, suggestions):
+          for t in suggestions:
+            t.complete(vz.Measurement(metrics={'other': float(t.parameters['u'].value) + float(t.parameters['k'].value)}))
+      other = benchmark_state.ExperimenterDesignerBenchmarkStateFactory(
+          experimenter_factory=Other, designer_factory=designer_factory('eagle', {}))(seed=case['seed'] + 101)
+      once = benchmark_runner.BenchmarkRunner(benchmark_subroutines=subs, num_repeats=1)
+      for _ in range(case['repeats']):
+        once.run(other)
+        once.run(state)
+    else:
+      runner = benchmark_runner.BenchmarkRunner(benchmark_subroutines=subs, num_repeats=case['repeats'])
+      runner.run(state)
     out = []
     for t in state.algorithm.supporter.GetTrials():
       ms = {}
